@@ -259,7 +259,7 @@ func (x *Engine) indexAnon(f *ssa.Function) {
 }
 
 // verifyFunc generates all obligations of one function under contract.
-func (x *Engine) verifyFunc(fs *FuncSpec, cs *Clause, prop string) (rep *FuncReport) {
+func (x *Engine) verifyFunc(fs *FuncSpec, cs *Clause, prop string, mode string) (rep *FuncReport) {
 	rep = &FuncReport{Key: fs.Key, Props: fs.Props}
 	fn := x.fnByKey[fs.Key]
 	if fn == nil {
@@ -274,8 +274,12 @@ func (x *Engine) verifyFunc(fs *FuncSpec, cs *Clause, prop string) (rep *FuncRep
 	x.curProps = fs.Props
 	x.obls = nil
 	x.topSpec = fs
-	x.conc = hasProp(fs.ConcProps, prop)
+	x.conc = hasProp(fs.ConcProps, prop) && mode != "seq"
 	x.curProp = prop
+	if mode == "conc" {
+		x.curFn += "|thread-modular"
+		rep.Key += "|thread-modular"
+	}
 	defer func() {
 		if r := recover(); r != nil {
 			if s, ok := r.(string); ok && strings.Contains(s, "contract error") {
